@@ -380,9 +380,12 @@ def run(prog: Program, chk: Check):
     fwd = mm_cls.methods["forward_message"]
     from ..program import ancestors as _anc5
     cg5 = callgraph.get(prog)
-    loops5 = [lp for lp in walk_local(fwd.node) if isinstance(lp, ast.For) and any(is_method_call(c, "send_message") for c in calls_in(lp))]
+    from .mgr import module_writers as _mw5
+
+    writer_names = tuple(_mw5(prog)) + ("send_message",)
+    loops5 = [lp for lp in walk_local(fwd.node) if isinstance(lp, ast.For) and any(is_method_call(c, writer_names) for c in calls_in(lp))]
     if not loops5:
-        raise AnalysisError("anchor vanished: recipient loop of forward_message")
+        chk.defer_error("C05-Q: recipient loop of forward_message not found")  # must not hide what the other rules established
     npub = 0
     for (cnode, st_, fi, desc) in cg5.calls.get(fwd.key, []):
         if fi is None or not (fi.key == fwd.key or fwd.key in cg5.may_call(fi)):
